@@ -70,15 +70,15 @@ void ob_c12c_binary2(const rarr<T,LR,LC>& a, const rarr<T,RR,RC>& b, const rarr<
     }); });
 }
 // ---- outer (run-time shapes, result written into a caller-provided array)
-template <size_t NA, size_t NB>
-void ob_c12c_outer(const rarr<int,NA>& a, const rarr<int,NB>& b, const rarr<int,NA,NB>& out_)
+template <class T, size_t NA, size_t NB>
+void ob_c12c_outer(const rarr<T,NA>& a, const rarr<T,NB>& b, const rarr<T,NA,NB>& out_)
 {
     auto out = out_;
     cv::assume_shape<NA>(a); cv::assume_shape<NB>(b); cv::assume_shape<NA,NB>(out);
     auto ok = na::multiply.outer(a, b, None, C12_CTX, out);
     OBLIGE("C12.eval.has_value", nm::has_value(ok), NA, NB);
     for_<NA>([&](auto I){ for_<NB>([&](auto J){
-        OBLIGE("C12.eval.outer.element_is_lhs_i_op_rhs_j", (unsigned)out(I.value, J.value) == (unsigned)a(I.value) * (unsigned)b(J.value), NA, NB, I.value*10+J.value);
+        OBLIGE("C12.eval.outer.element_is_lhs_i_op_rhs_j", same_val<T>((T)out(I.value, J.value), (T)(a(I.value) * b(J.value))), NA, NB, I.value*10+J.value, sizeof(T));
     }); });
 }
 // ---- unary ops (sqrt / floor / ceil): element i is the scalar function of element i, bit for bit (compiled with -fno-math-errno so that
@@ -99,12 +99,14 @@ void ob_c12c_unary(const tarr<T,N>& a)
         });
 }
 #define U1(T,N,OP) template void ob_c12c_unary<T,N,OP>(const tarr<T,N>&);
-U1(float,1,0) U1(float,5,0) U1(float,9,1) U1(float,4,2) U1(double,3,0) U1(double,5,1) U1(double,2,2)
 #define B1(T,N,OP) template void ob_c12c_binary1<T,N,OP>(const tarr<T,N>&, const tarr<T,N>&);
-B1(int,1,0) B1(int,3,0) B1(int,4,1) B1(int,5,2) B1(int,9,0) B1(float,1,0) B1(float,4,0) B1(float,5,1) B1(float,7,2) B1(float,9,0) B1(double,1,0) B1(double,3,1) B1(double,5,0)
 #define B2(T,R,C,LR,LC,RR,RC) template void ob_c12c_binary2<T,R,C,LR,LC,RR,RC>(const rarr<T,LR,LC>&, const rarr<T,RR,RC>&, const rarr<T,R,C>&);
+#define OTT(T,NA,NB) template void ob_c12c_outer<T,NA,NB>(const rarr<T,NA>&, const rarr<T,NB>&, const rarr<T,NA,NB>&);
+#define OT(NA,NB) OTT(int,NA,NB)
+#ifndef C12C_NO_INSTANCES
+U1(float,1,0) U1(float,5,0) U1(float,9,1) U1(float,4,2) U1(double,3,0) U1(double,5,1) U1(double,2,2)
+B1(int,1,0) B1(int,3,0) B1(int,4,1) B1(int,5,2) B1(int,9,0) B1(float,1,0) B1(float,4,0) B1(float,5,1) B1(float,7,2) B1(float,9,0) B1(double,1,0) B1(double,3,1) B1(double,5,0)
 B2(int,2,5,2,5,1,5) B2(int,2,5,1,5,2,5) B2(int,2,5,2,1,2,5) B2(int,2,5,2,5,2,1) B2(int,2,5,1,1,2,5) B2(int,2,5,2,5,1,1) B2(int,2,5,2,1,1,5) B2(int,3,4,1,4,3,1) B2(float,2,5,2,1,1,5) B2(float,2,5,1,1,2,5)
-#define OT(NA,NB) template void ob_c12c_outer<NA,NB>(const rarr<int,NA>&, const rarr<int,NB>&, const rarr<int,NA,NB>&);
 OT(2,5) OT(3,4) OT(1,1) OT(2,9)
 // (replayed concretely and correct, but beyond what LLVM folds: int multiply N=17, (3,9)+(3,1)x(1,9), (2,4)+(2,1) rhs, float (3,9), outer (4,4), (3,13))
 #ifdef VERIF_THOROUGH
@@ -117,3 +119,4 @@ void ob_c12c_negctl(const tarr<int,5>& a, const tarr<int,5>& b)
     auto r = nm::unwrap(na::add(a, b, C12_CTX));
     NEGCTL("C12.NEG.eval_binary_is_lhs", (int)r(4) == a(4), 0);
 }
+#endif // C12C_NO_INSTANCES
